@@ -18,7 +18,7 @@ from vf.xlate import BACKENDS, translate
 RULE = (
     "case = (back end, generated host query, graft kind, graft position = index of the numeric / column production it replaces). asserted "
     "catalogue: operators // << >> | ^ & @ ~, comparison chains, in / is, Aggregate(f) and Aggregate(f, g), Sum / Max / Min with an argument, accumulators of one or three parameters, slices, + - * / % ** unary and "
-    "comparison with a collection operand, math functions of a collection, a collection / sequence / object / string where a truth value is needed (and / or operand, conditional test, Where predicate), First() with a predicate or default, raw-object output columns (collection, singleton, First() of objects, object in a tuple), sequence "
+    "comparison with a collection operand, math functions of a collection, a collection / sequence / object / string where a truth value is needed (and / or operand, conditional test, Where predicate), First() with a predicate or default, a surplus argument of Select / Where / SelectMany or of an applied lambda (and a missing one), unary operators / ** / math functions of a string or an object, a string or an object as a Range bound or an index, raw-object output columns (collection, singleton, First() of objects, object in a tuple), sequence "
     "operators on a scalar, a member or method of a number / bool, arithmetic with a string or an object operand, wrong number of column names, getAttribute, math.sin module calls, keyword arguments (silently dropped before the fix), metadata without / with unknown "
     "metadata_type, with a missing, unknown or misspelt key, with a string where a list of strings is documented, with both return_type and return_type_element, a block of an executor-registered (extended) metadata type with a misspelt key. non-trivial = graft at lambda depth >= 2 or behind a rewrite (First-method, fused "
     "Select/Where, ifexp arm, and/or operand); distinct by (graft kind, depth, host shape)."
@@ -37,6 +37,9 @@ NUM_GRAFTS = [
     "sum-selector", "max-arg", "min-selector", "agg-acc1", "agg-acc3",
     "seq-fn-pow", "seq-fn-sqrt", "seq-fn-abs", "seq-fn-fmax",
     "first-pred", "first-pred-obj", "first-pred-default",
+    "where-extra-arg", "select-extra-arg", "selectmany-extra-arg", "lambda-extra-arg", "lambda-missing-arg",
+    "not-str", "not-obj", "neg-str", "neg-obj", "pow-obj", "pow-str", "fn-obj", "fn-str",
+    "range-str-bound", "range-obj-bound", "index-str", "index-obj",
     "seq-truth-and", "seq-truth-or", "seq-truth-if", "seq-truth-where", "vec-truth-if", "vec-truth-where", "vec-truth-and", "str-truth-if", "obj-truth-if", "obj-truth-and",
 ]
 COL_GRAFTS = ["raw-collection", "raw-singleton", "raw-first-object", "raw-object-var", "raw-objvec"]
@@ -146,6 +149,41 @@ class GraftGen(QGen):
                 return None
             o = self.pick(objs)[0]
             return f"({M} if {o} else {t})" if k == "obj-truth-if" else f"(1 if ({o} and {t} > {M}) else 0)"
+        if k in ("where-extra-arg", "select-extra-arg", "selectmany-extra-arg"):
+            # the sequence operators take the sequence and ONE lambda: a further argument (a second filter, say) would be dropped
+            self.noflat += 1
+            os_ = self.numseq(scope, 0)
+            self.noflat -= 1
+            if os_ is None:
+                return None
+            if k == "where-extra-arg":
+                return f"({os_[0]}.Where(lambda wa: wa > -{M}, lambda wb: wb < {M}).Count() + {t})"
+            if k == "select-extra-arg":
+                return f"({os_[0]}.Select(lambda wa: wa + {M}, lambda wb: wb * 2).Count() + {t})"
+            s_ = self._collection_text(scope)
+            v_ = self._vec_text(scope)
+            return f"({s_}.SelectMany(lambda wa: {os_[0]}, lambda wb: {M}).Count() + {t})" if s_ else None
+        if k == "lambda-extra-arg":
+            return f"((lambda la: la + {M})({t}, 17))"
+        if k == "lambda-missing-arg":
+            return f"((lambda la, lb: la + {M})({t}))"
+        if k in ("not-str", "neg-str", "pow-str", "fn-str"):
+            return {"not-str": f"(1 if (not 's{M}') else {t})", "neg-str": f"((-'s{M}') + {t})", "pow-str": f"(('s{M}' ** 2) + {t})", "fn-str": f"(sqrt('s{M}') + {t})"}[k]
+        if k in ("not-obj", "neg-obj", "pow-obj", "fn-obj", "range-obj-bound", "index-obj"):
+            objs = self.obj_sources(scope, 0)
+            if not objs:
+                return None
+            o = self.pick(objs)[0]
+            if k == "index-obj":
+                v = self._vec_text(scope)
+                return f"({v}[{o}] + {M})" if v else None
+            return {"not-obj": f"(({M} if (not {o}) else {t}))", "neg-obj": f"((-{o}) + {t} + {M})", "pow-obj": f"(({o} ** 2) + {t} + {M})", "fn-obj": f"(sqrt({o}) + {t} + {M})",
+                    "range-obj-bound": f"(Range(0, {o}).Count() + {M})"}[k]
+        if k == "range-str-bound":
+            return f"(Range(0, 's{M}').Count() + {t})"
+        if k == "index-str":
+            v = self._vec_text(scope)
+            return f"({v}['s{M}'] + {t})" if v else None
         if k == "kwarg-function":
             return f"sin({t}, extra={M})"
         if k == "kwarg-method":
@@ -385,7 +423,7 @@ def check(c):
         pkg = translate(c["text"], c["backend"], exe=exe)
     except Exception as e:
         return type(e).__name__
-    if c["kind"] in NUM_GRAFTS and not c["kind"].startswith("kwarg") and c["kind"] not in ("sum-selector", "max-arg", "min-selector", "first-pred", "first-pred-obj", "first-pred-default"):
+    if c["kind"] in NUM_GRAFTS and not c["kind"].startswith("kwarg") and c["kind"] not in ("sum-selector", "max-arg", "min-selector", "first-pred", "first-pred-obj", "first-pred-default", "where-extra-arg", "select-extra-arg", "selectmany-extra-arg", "lambda-extra-arg", "lambda-missing-arg"):
         # did the graft reach the translator at all?  func_adl's normalisations (the executor's first step)
         # legitimately drop values nothing uses (Select(f).Select(lambda v: 0), identity Selects)
         from vf.xlate import make_executor
